@@ -108,3 +108,7 @@ impl<Buf: AsMutSlice2<u32>> Target for Buf {
         io
     }
 }
+
+#[cfg(kani)]
+#[path = "/verif/kani/target.rs"]
+pub(crate) mod verif_kani;
